@@ -109,3 +109,53 @@ Proof.
   - apply N.leb_le. apply N.leb_le in E. nia.
   - apply N.leb_gt. apply N.leb_gt in E. nia.
 Qed.
+
+(** ** Rounding never takes a value at or above 2^64 below 2^64 *)
+Lemma rnd_ge64 p q :
+  q <> 0 -> 2 ^ 64 * q <= p -> snd (rnd p q) <> 0 /\ fl_ge_pow2 (rnd p q) 64 = true.
+Proof.
+  intros Hq Hp. unfold rnd.
+  assert (Hp0 : p <> 0) by (pose proof (pow2_pos 64); nia).
+  destruct (p =? 0) eqn:Ep; [apply N.eqb_eq in Ep; contradiction|].
+  set (lp := N.log2 p). set (lq := N.log2 q).
+  assert (HLp : 2 ^ lp <= p < 2 ^ N.succ lp) by (apply N.log2_spec; lia).
+  assert (HLq : 2 ^ lq <= q < 2 ^ N.succ lq) by (apply N.log2_spec; lia).
+  assert (Hd : 64 + lq <= lp).
+  { assert (H1 : 2 ^ (64 + lq) <= p) by (rewrite N.pow_add_r; nia).
+    apply N.log2_le_mono in H1. rewrite N.log2_pow2 in H1 by lia. exact H1. }
+  cbv zeta.
+  destruct (scale2 p q (Z.of_N lp - Z.of_N lq)) as [a0 b0] eqn:Es0.
+  (* F = floor(log2(p/q)) >= 64 with 2^F * q <= p *)
+  assert (HF : exists F, (if b0 <=? a0 then (Z.of_N lp - Z.of_N lq)%Z
+                          else (Z.of_N lp - Z.of_N lq - 1)%Z) = Z.of_N F
+                         /\ 64 <= F /\ 2 ^ F * q <= p).
+  { unfold scale2 in Es0.
+    destruct (0 <=? Z.of_N lp - Z.of_N lq)%Z eqn:E0; [|lia].
+    replace (Z.to_N (Z.of_N lp - Z.of_N lq)) with (lp - lq) in Es0 by lia.
+    injection Es0 as <- <-.
+    destruct (q * 2 ^ (lp - lq) <=? p) eqn:E1.
+    - exists (lp - lq). split; [lia|]. split; [lia|]. apply N.leb_le in E1. lia.
+    - apply N.leb_gt in E1.
+      assert (Hne : lp - lq <> 64).
+      { intro H64. rewrite H64 in E1. lia. }
+      exists (lp - lq - 1). split; [lia|]. split; [lia|].
+      (* q * 2^(lp-lq-1) < 2^(lq+1) * 2^(lp-lq-1) = 2^lp <= p *)
+      assert (Hpow : 2 ^ N.succ lq * 2 ^ (lp - lq - 1) = 2 ^ lp).
+      { rewrite <- N.pow_add_r. f_equal. lia. }
+      pose proof (pow2_pos (lp - lq - 1)). nia. }
+  destruct HF as [F [HF1 [HF2 HF3]]]. rewrite HF1. clear HF1 Es0 a0 b0.
+  unfold scale2.
+  destruct (0 <=? Z.of_N F - 52)%Z eqn:Ee; [|lia].
+  replace (Z.to_N (Z.of_N F - 52)) with (F - 52) by lia.
+  set (E := F - 52). pose proof (pow2_pos E) as HE.
+  assert (HFE : 2 ^ F = 2 ^ 52 * 2 ^ E) by (rewrite <- N.pow_add_r; f_equal; lia).
+  assert (Hm0 : 2 ^ 52 <= p / (q * 2 ^ E)).
+  { apply N.div_le_lower_bound; [nia|]. nia. }
+  set (m0 := p / (q * 2 ^ E)) in *.
+  set (m := if (q * 2 ^ E <? 2 * (p mod (q * 2 ^ E))) || ((2 * (p mod (q * 2 ^ E)) =? q * 2 ^ E) && N.odd m0)
+            then m0 + 1 else m0).
+  assert (Hm : m0 <= m) by (unfold m; destruct (_ || _); lia).
+  cbn [snd fst]. split; [lia|]. unfold fl_ge_pow2. cbn [fst snd]. apply N.leb_le.
+  assert (H64F : 2 ^ 64 <= 2 ^ F) by (apply N.pow_le_mono_r; lia).
+  nia.
+Qed.
